@@ -11,9 +11,9 @@ KINDS = ("retry", "poll", "throttle", "timeout")
 PREFIX = {"retry": "RetryExecutor", "poll": "PollExecutor", "throttle": "ThrottleExecutor", "timeout": "TimeoutExecutor"}
 
 
-def make(kind, base):
+def make(kind, base, retry_sleep=1.0):
     if kind == "retry":
-        return Executors.with_retry(base, max_attempts=3, sleep=1.0, exception_base=E)
+        return Executors.with_retry(base, max_attempts=3, sleep=retry_sleep, exception_base=E)
     if kind == "poll":
         def poll_fn(ds):
             for d in ds:
@@ -40,15 +40,26 @@ def _eparams():
                 if workload == "pending" and action != "drop":
                     continue
                 out.append(dict(kind=kind, action=action, workload=workload))
+        if kind == "retry":
+            # the executor (and its future) is dropped while the worker sleeps out a long back-off
+            out.append(dict(kind=kind, action="drop", workload="between_retries"))
+            out.append(dict(kind=kind, action="atexit", workload="between_retries"))
+            out.append(dict(kind=kind, action="shutdown", workload="between_retries"))
     return out
 
 
 def ebody(mc, p):
     n0 = len(mc.s.threads)
     base = ManualExecutor(mc, mode="hold", forget=True)
-    box = {"ex": make(p["kind"], base)}
+    box = {"ex": make(p["kind"], base, retry_sleep=40.0 if p["workload"] == "between_retries" else 1.0)}
     wl = p["workload"]
     fut = {}
+    if wl == "between_retries":
+        f = box["ex"].submit(lambda: "v")
+        mc.sleep(0.25)
+        base.complete(0, exc=E("retry me"))          # first attempt fails: retry due in 40 s
+        mc.sleep(0.25)
+        del f
     if wl in ("pending", "done", "waking"):
         f = box["ex"].submit(lambda: "v")
         if wl == "done":
@@ -121,7 +132,7 @@ oracle("c12.exit.lines")(echeck)
 
 
 # ------------------------------------------------------------------ reference retention
-HIST = ("completed", "failed", "cancelled_queued", "cancelled_in_delegate", "timed_out", "retried")
+HIST = ("completed", "failed", "cancelled_queued", "cancelled_in_delegate", "timed_out", "retried", "cancelled_between_retries")
 RKINDS = KINDS + ("map", "flat_map", "cancel_on_shutdown", "f_timeout", "f_zip", "f_map")
 
 
@@ -148,7 +159,7 @@ def _rparams():
         for hist in HIST:
             if hist == "timed_out" and kind not in ("timeout", "f_timeout"):
                 continue
-            if hist == "retried" and kind != "retry":
+            if hist in ("retried", "cancelled_between_retries") and kind != "retry":
                 continue
             if hist == "cancelled_queued" and kind not in ("throttle", "retry"):
                 continue
@@ -166,19 +177,31 @@ def rbody(mc, p):
     def scenario():
         """everything created here dies with this frame, except through the library"""
         res, arg, kwv = Obj(), Obj(), Obj()
-        fn = Fn(res, fail=1 if hist in ("failed", "retried") else 0)
+        fn = Fn(res, fail=1 if hist in ("failed", "retried", "cancelled_between_retries") else 0)
         if kind in ("f_zip", "f_map", "f_timeout"):
             src = base.submit(fn, arg, kw=kwv)
             f = {"f_zip": lambda: F.f_zip(src, F.f_return(1)), "f_map": lambda: F.f_map(src, lambda v: v),
                  "f_timeout": lambda: F.f_timeout(src, 2.0)}[kind]()
             ex = None
         else:
-            ex = make(kind, base)
+            ex = make(kind, base, retry_sleep=40.0 if hist == "cancelled_between_retries" else 1.0)
             if hist == "cancelled_queued" and kind == "throttle":
                 blocker = ex.submit(lambda: None)
             f = ex.submit(fn, arg, kw=kwv)
         refs.update(fn=weakref.ref(fn), arg=weakref.ref(arg), kw=weakref.ref(kwv), res=weakref.ref(res), fut=weakref.ref(f))
-        if hist == "cancelled_queued":
+        if hist == "cancelled_between_retries":
+            mc.sleep(0.25)
+            it = base.items[0]
+            try:
+                it.fn(*it.args, **it.kwargs)
+            except Exception as e:
+                base.complete(0, exc=e)
+                e = None
+            it.fn = it.args = it.kwargs = it.future = None
+            del it
+            mc.sleep(0.5)                      # the worker now sleeps out the 40 s back-off
+            mc.emit("cancel", r=f.cancel())
+        elif hist == "cancelled_queued":
             mc.emit("cancel", r=f.cancel())
         elif hist == "cancelled_in_delegate":
             mc.sleep(0.25)           # handed to the delegate (queued there, not running)
@@ -239,7 +262,74 @@ def rcheck(x):
 harness("c12.retain", prop="C12", traced=(), horizon=60, params=_rparams())(rbody)
 oracle("c12.retain")(rcheck)
 
+# ------------------------------------------------------------------ retention when completion races a cancel
+def _xparams():
+    return [dict(kind=k) for k in ("poll", "retry", "throttle", "timeout", "map")]
+
+
+def xbody(mc, p):
+    kind = p["kind"]
+    base = ManualExecutor(mc, mode="hold", forget=True)
+    refs = {}
+    box = {}
+
+    def scenario():
+        res, arg = Obj(), Obj()
+        fn = Fn(res)
+        ex = make(kind, base)
+        f = ex.submit(fn, arg)
+        refs.update(fn=weakref.ref(fn), arg=weakref.ref(arg), res=weakref.ref(res), fut=weakref.ref(f))
+        box["f"] = f
+        box["res"] = res
+        return ex
+
+    ex = scenario()
+    mc.sleep(0.25)
+
+    def completer():
+        it = base.items[0]
+        r = box.pop("res")
+        base.complete(0, r)
+        del r, it
+
+    def canceller():
+        f = box.pop("f")
+        mc.emit("cancel", r=f.cancel())
+        del f
+    mc.spawn(completer, "comp")
+    mc.spawn(canceller, "can")
+    mc.sleep(3)
+    base.forget_finished()
+    gc.collect()
+    mc.sleep(1)
+    alive = sorted(k for k, r in refs.items() if r() is not None)
+    detail = []
+    for k in alive:
+        o = refs[k]()
+        rr = [type(q).__name__ for q in gc.get_referrers(o) if q is not refs and not isinstance(q, type(lambda: 0))][:6]
+        detail.append("%s<-%s" % (k, ",".join(rr)))
+        del o
+    mc.observe(alive=tuple(alive), detail=tuple(detail))
+    ex.shutdown(False)
+
+
+def xcheck(x):
+    p = x.p
+    if not x.require(x.end == "done" and "alive" in x.obs, "bad-ending", end=x.end):
+        return
+    x.require(not x.obs["alive"], "reference-retained", kind=p["kind"], hist="cancel-racing-completion",
+              what="+".join(x.obs["alive"]), detail=repr(x.obs["detail"]))
+    for name, exc in x.deaths:
+        x.require(False, "thread-died", thread=name.split("-")[0], exc=exc[0], detail=exc[2][-400:])
+
+
+harness("c12.retain.race", prop="C12", traced=("poll", "retry", "throttle", "timeout", "map", "common"), horizon=30,
+        params=_xparams())(xbody)
+oracle("c12.retain.race")(xcheck)
+
 PLAN = {
-    "quick": [dict(harness="c12.exit", bound=3), dict(harness="c12.exit.lines", bound=2), dict(harness="c12.retain", bound=2)],
-    "thorough": [dict(harness="c12.exit", bound=4), dict(harness="c12.exit.lines", bound=3), dict(harness="c12.retain", bound=3)],
+    "quick": [dict(harness="c12.exit", bound=3), dict(harness="c12.exit.lines", bound=2), dict(harness="c12.retain", bound=2),
+              dict(harness="c12.retain.race", bound=2)],
+    "thorough": [dict(harness="c12.exit", bound=4), dict(harness="c12.exit.lines", bound=3), dict(harness="c12.retain", bound=3),
+                 dict(harness="c12.retain.race", bound=3)],
 }
